@@ -311,3 +311,34 @@ func checkSetterValues(c *Ctx, pkg string, stems []string) {
 	}
 	c.Check(n >= 1, "setters/"+pkg+"/"+strings.Join(stems, ","), nil, "setter functions examined")
 }
+
+// checkParamGetters: a keeper method GetX that returns a field of the module parameters returns the
+// field whose name corresponds to X (same-typed parameters are interchangeable for the compiler).
+func checkParamGetters(c *Ctx, pkg string, getters ...string) {
+	for _, g := range getters {
+		f := c.Fn(pkg + ".Keeper." + g)
+		if f == nil {
+			continue
+		}
+		stem := strings.ToLower(strings.TrimPrefix(g, "Get"))
+		n := 0
+		for _, r := range Returns(f) {
+			if len(r.Results) == 0 {
+				continue
+			}
+			for _, root := range roots(r.Results[0]) {
+				base, name, ok := fieldLoadOf(root)
+				if !ok {
+					continue
+				}
+				cl, _ := callOf(base)
+				if cl == nil || !(isCallTo(cl, "pk.Keeper.GetParams") || isCallTo(cl, "ck.Keeper.GetConsumerParams")) {
+					continue
+				}
+				n++
+				c.Check(strings.HasPrefix(strings.ToLower(name), stem), fk(f, "returns-own-parameter"), r, g+" returns the module parameter of the same name; found field "+name)
+			}
+		}
+		c.Check(n > 0, fk(f, "reads-module-parameters"), f, g+" reads a field of the module parameters")
+	}
+}
